@@ -213,7 +213,8 @@ Record sim (ss : sstate) (s : mstate) : Prop := mkSim {
   sim_vars : vars_of (m_frames s) = s_locals ss;          (* the variables of the call in progress, if any *)
   sim_settled : settled (m_frames s) = true;               (* no call is being set up *)
   sim_world : m_world s = s_world ss;
-  sim_unnamed : m_unnamed s = []
+  sim_unnamed : m_unnamed s = [];
+  sim_disc : rf_get (m_regs s) R_DISC_FORWARD = Some (VBool false)   (* lights are scanned from the last name to the first; no statement changes that *)
 }.
 
 (* frames up to the dictionary of the call in progress (the innermost entered call frame): an assignment inside a
@@ -273,10 +274,11 @@ Record simr (ss : sstate) (s : mstate) : Prop := mkSimr {
   simr_globals : m_globals s = s_globals ss;
   simr_vars : vars_of (m_frames s) = s_locals ss;
   simr_world : m_world s = s_world ss;
-  simr_unnamed : m_unnamed s = []
+  simr_unnamed : m_unnamed s = [];
+  simr_disc : rf_get (m_regs s) R_DISC_FORWARD = Some (VBool false)
 }.
 Lemma sim_simr ss s : sim ss s -> simr ss s.
-Proof. intros [Hr Hf Hg Hv Hst Hw Hu]. constructor; assumption. Qed.
+Proof. intros [Hr Hf Hg Hv Hst Hw Hu Hdf]. constructor; assumption. Qed.
 Lemma simr_lookup ss s x : simr ss s -> get_var (m_globals s) (m_frames s) x = lookup ss x.
 Proof. intros H. unfold get_var, lookup. rewrite (simr_vars _ _ H), (simr_globals _ _ H). reflexivity. Qed.
 Lemma simr_get_reg ss s r : simr ss s -> visible r = true -> get_reg s r = Ok (rreg (s_regs ss) r).
@@ -493,15 +495,17 @@ End Sim2.
 Lemma sim_put_reg_visible ss s r x k : sim ss s -> visible r = true ->
   sim (s_with_regs ss (rf_set (s_regs ss) r x)) (put_vm s (DReg r) x k).
 Proof.
-  intros H Hv. destruct H as [Hr Hf Hg Hfr Hl Hw Hu]. constructor; cbn; try assumption.
+  intros H Hv. destruct H as [Hr Hf Hg Hfr Hl Hw Hu Hdf]. constructor; cbn; try assumption.
   - apply agree_set. exact Hr.
   - apply regs_full_set. exact Hf.
+  - rewrite rf_get_set_other; [exact Hdf|]. destruct r; try reflexivity; discriminate.
 Qed.
 
-Lemma sim_put_reg_hidden ss s r x k : sim ss s -> visible r = false -> sim ss (put_vm s (DReg r) x k).
+Lemma sim_put_reg_hidden ss s r x k : sim ss s -> visible r = false -> register_eqb R_DISC_FORWARD r = false -> sim ss (put_vm s (DReg r) x k).
 Proof.
-  intros H Hv. destruct H as [Hr Hf Hg Hfr Hl Hw Hu]. constructor; cbn; try assumption.
-  apply agree_set_hidden; assumption.
+  intros H Hv Hnd. destruct H as [Hr Hf Hg Hfr Hl Hw Hu Hdf]. constructor; cbn; try assumption.
+  - apply agree_set_hidden; assumption.
+  - rewrite rf_get_set_other; [exact Hdf|exact Hnd].
 Qed.
 
 Lemma assign_other_fields ss y x : s_regs (assign ss y x) = s_regs ss /\ s_world (assign ss y x) = s_world ss /\ s_trace (assign ss y x) = s_trace ss.
@@ -509,7 +513,7 @@ Proof. unfold assign. destruct (s_locals ss) as [l|]; [destruct (env_has l y); [
 
 Lemma sim_put_var ss s y x k : sim ss s -> sim (assign ss y x) (put_vm s (DVar y) x k).
 Proof.
-  intros H. destruct H as [Hr Hf Hg Hv Hst Hw Hu].
+  intros H. destruct H as [Hr Hf Hg Hv Hst Hw Hu Hdf].
   pose proof (put_var_refines (m_globals s) (m_frames s) y x Hst) as Hp.
   pose proof (sem_assign_is_scope_assign ss y x) as Ha.
   destruct (assign_other_fields ss y x) as [Er [Ew Et]].
@@ -562,6 +566,29 @@ Proof.
       (destruct (time_conv _ (rreg rb2 R_DURATION)) as [dd|e]; cbn [bind]; [|discriminate];
        destruct (time_conv _ (rreg rb2 R_TIME)) as [tt|e]; cbn [bind]; [|discriminate];
        intros E; inversion E; subst; eexists; split; [reflexivity|split; [repeat apply agree_set; exact Hag|repeat apply regs_full_set; exact Hfull]]).
+Qed.
+
+(* the unit switch rewrites the mode, the colour settings and the two times, nothing else *)
+Lemma store_color_keeps a c ra r : rf_store_color a c = Ok ra ->
+  match r with R_RED | R_GREEN | R_BLUE | R_KELVIN | R_HUE | R_SATURATION | R_BRIGHTNESS => False | _ => True end ->
+  rf_get ra r = rf_get a r.
+Proof.
+  unfold rf_store_color. destruct (rf_unit_mode a) as [m|e]; cbn [bind]; [|discriminate].
+  destruct c as [|c1 [|c2 [|c3 [|c4 [|c5 t]]]]]; try discriminate. intros E Hr. injection E as <-.
+  destruct m; cbn [fold_left fst snd]; rewrite !rf_get_set_other; try reflexivity; destruct r; try reflexivity; contradiction.
+Qed.
+Lemma switch_keeps_disc a v ra : rf_switch_unit_mode a v = Ok ra -> rf_get ra R_DISC_FORWARD = rf_get a R_DISC_FORWARD.
+Proof.
+  unfold rf_switch_unit_mode. destruct (rf_unit_mode a) as [from|e]; cbn [bind]; [|discriminate].
+  destruct v; try discriminate. destruct (unit_mode_eqb from m); [intros E; injection E as <-; reflexivity|].
+  destruct (rf_get_color a) as [orig|e]; cbn [bind]; [|discriminate].
+  destruct (convert_color from m orig) as [conv|e]; cbn [bind]; [|discriminate].
+  destruct (rf_store_color (rf_set a R_UNIT_MODE (VMode m)) conv) as [r2|e] eqn:Es; cbn [bind]; [|discriminate].
+  pose proof (store_color_keeps _ _ _ R_DISC_FORWARD Es I) as H2. rewrite rf_get_set_other in H2 by reflexivity.
+  destruct m, from; try (intros E; injection E as <-; exact H2);
+    (destruct (time_conv _ (rreg r2 R_DURATION)) as [dd|e]; cbn [bind]; [|discriminate];
+     destruct (time_conv _ (rreg r2 R_TIME)) as [tt|e]; cbn [bind]; [|discriminate];
+     intros E; injection E as <-; rewrite !rf_get_set_other by reflexivity; exact H2).
 Qed.
 
 Section Sim3.
@@ -659,7 +686,7 @@ Proof.
   cbn [code_at] in Hc. destruct Hc as [Hf _].
   exists 1%nat, (advance (with_regs s ra)), []. split.
   - apply (estep1 im s _ _ _ Hf). cbn [Machine.exec i_op i_p0 i_p1 I2 param_value]. unfold switch_unit_mode. rewrite Ha. reflexivity.
-  - destruct Hsim as [Hr Hfu Hg Hfr Hl Hw Hu]. split; [constructor; cbn; assumption|].
+  - destruct Hsim as [Hr Hfu Hg Hfr Hl Hw Hu Hdf]. split; [constructor; cbn; try assumption; rewrite (switch_keeps_disc _ _ _ Ha); exact Hdf|].
     split; [reflexivity|]. split; [reflexivity|]. rewrite app_nil_r. reflexivity.
 Qed.
 
@@ -738,7 +765,7 @@ Proof.
   destruct (c_rval_runs rt mt v (DReg R_RESULT) Hp (plain_ok_result mt v Hp) im ss s x ss fuel Hsim Hcv Ev) as [_ [n Hn]].
   set (k := zlength (c_rval rt mt v (DReg R_RESULT))) in *.
   set (s1 := put_vm s (DReg R_RESULT) x k) in *.
-  assert (Hsim1 : sim ss s1) by (apply sim_put_reg_hidden; [exact Hsim|reflexivity]).
+  assert (Hsim1 : sim ss s1) by (apply sim_put_reg_hidden; [exact Hsim|reflexivity|reflexivity]).
   assert (Hu1 : m_unnamed s1 = []) by exact (sim_unnamed _ _ Hsim1).
   assert (Hr1 : rf_get (m_regs s1) R_RESULT = Some x) by (unfold s1; cbn [put_vm m_regs]; apply rf_get_set_same).
   assert (Hct1 : code_at im (m_pc s1) tail) by exact Hct.
@@ -746,7 +773,7 @@ Proof.
   exists (n + (if nl then 3 else 2))%nat, (with_pc s1 (m_pc s1 + (if nl then 3 else 2))), ([] ++ EvOut x :: (if nl then [EvNewline] else [])).
   split; [eapply esteps_app; [exact Hn|exact Hout]|].
   split.
-  { apply sim_emit. destruct Hsim1 as [Hr Hfu Hg Hfr Hl Hw Hu]. constructor; cbn; assumption. }
+  { apply sim_emit. destruct Hsim1 as [Hr Hfu Hg Hfr Hl Hw Hu Hdf]. constructor; cbn; assumption. }
   split.
   { cbn [m_pc with_pc]. unfold s1. cbn [put_vm m_pc]. unfold zlength, tail. rewrite !app_length. destruct nl; cbn [length]; rewrite !Nat2Z.inj_add; cbn; unfold k, zlength; lia. }
   split; [reflexivity|]. cbn [app]. apply trace_emit.
@@ -778,7 +805,7 @@ Proof.
   cbn [rebase] in Hkeep. injection Hkeep as Hkeep. injection Hd as Hd. subst ss1.
   cbn [rebase dev_outcome d_regs d_world d_events].
   eexists. exists (d_events d). split; [reflexivity|].
-  destruct Hsim as [Hr Hfu Hg Hfr Hl Hw Hu].
+  destruct Hsim as [Hr Hfu Hg Hfr Hl Hw Hu Hdf].
   split.
   { constructor; cbn; try assumption; try reflexivity.
     - rewrite Hkeep. cbn [d_regs]. exact Hr.
@@ -867,11 +894,11 @@ Lemma c_ops_cons op k n r : c_ops rt mt false op (OpList (Target k (NStr n) :: r
 Proof. destruct k; reflexivity. Qed.
 
 (* loading a scratch register *)
-Lemma load_hidden im ss s p r v : sim ss s -> visible r = false -> writable r = true -> param_value p = Some v ->
+Lemma load_hidden im ss s p r v : sim ss s -> visible r = false -> register_eqb R_DISC_FORWARD r = false -> writable r = true -> param_value p = Some v ->
   fetch im (m_pc s) = Some (I2 OC_MOVEQ p (PReg r)) ->
   esteps 1 im s = Some (put_vm s (DReg r) v 1, []) /\ sim ss (put_vm s (DReg r) v 1).
 Proof.
-  intros Hsim Hv Hw Hp Hf. split; [|apply sim_put_reg_hidden; assumption].
+  intros Hsim Hv Hnd Hw Hp Hf. split; [|apply sim_put_reg_hidden; assumption].
   apply (estep1 im s _ _ _ Hf). change (PReg r) with (dest_param (DReg r)).
   assert (Hok : ok_dest (DReg r) (RLit (LInt 0)) = true) by (cbn [ok_dest]; rewrite Hw; reflexivity).
   rewrite (exec_moveq im s p (DReg r) v Hok Hp).
@@ -885,9 +912,9 @@ Lemma sim_one_target (c : bool) k n im ss s ss1 : sim ss s ->
                  rev (s_trace ss1) = rev (s_trace ss) ++ evs.
 Proof.
   intros Hsim Hc Hd. cbn [code_at] in Hc. destruct Hc as [Hf1 [Hf2 [Hf3 _]]].
-  destruct (load_hidden im ss s (PStr n) R_NAME (VStr n) Hsim eq_refl eq_refl eq_refl Hf1) as [E1 Hs1].
+  destruct (load_hidden im ss s (PStr n) R_NAME (VStr n) Hsim eq_refl eq_refl eq_refl eq_refl Hf1) as [E1 Hs1].
   set (s1 := put_vm s (DReg R_NAME) (VStr n) 1) in *.
-  destruct (load_hidden im ss s1 (POperand (kind_operand k)) R_OPERAND (VOperand (kind_operand k)) Hs1 eq_refl eq_refl eq_refl Hf2) as [E2 Hs2].
+  destruct (load_hidden im ss s1 (POperand (kind_operand k)) R_OPERAND (VOperand (kind_operand k)) Hs1 eq_refl eq_refl eq_refl eq_refl Hf2) as [E2 Hs2].
   set (s2 := put_vm s1 (DReg R_OPERAND) (VOperand (kind_operand k)) 1) in *.
   assert (Hn : rf_get (m_regs s2) R_NAME = Some (VStr n)).
   { unfold s2, s1. cbn [put_vm m_regs]. rewrite rf_get_set_other by reflexivity. apply rf_get_set_same. }
@@ -943,7 +970,7 @@ Proof.
   - (* all *)
     destruct fuel as [|fuel]; [discriminate|]. rewrite exec_ops_all in He.
     rewrite c_ops_all in *. cbn [code_at] in Hc. destruct Hc as [Hf1 [Hf2 _]].
-    destruct (load_hidden im ss s (POperand OD_ALL) R_OPERAND (VOperand OD_ALL) Hsim eq_refl eq_refl eq_refl Hf1) as [E1 Hs1].
+    destruct (load_hidden im ss s (POperand OD_ALL) R_OPERAND (VOperand OD_ALL) Hsim eq_refl eq_refl eq_refl eq_refl Hf1) as [E1 Hs1].
     set (s1 := put_vm s (DReg R_OPERAND) (VOperand OD_ALL) 1) in *.
     assert (Ho : rf_get (m_regs s1) R_OPERAND = Some (VOperand OD_ALL)) by (unfold s1; cbn [put_vm m_regs]; apply rf_get_set_same).
     change (if c then do_color_all (s_regs ss) (s_world ss) else do_power_all (s_regs ss) (s_world ss)) with (all_cmd c (s_regs ss) (s_world ss)) in He.
